@@ -33,6 +33,7 @@ func main() {
 			os.Exit(2)
 		}
 	}
+	registerVerifExtensions()
 	registerProps()
 	if len(os.Args) < 2 {
 		usage()
